@@ -149,6 +149,24 @@ def byte_scan(rep, u):
     if c0.get("k") == "bin" and c0["op"] in ("<", ">"):
         a, b = strip_casts(c0["x"]), strip_casts(c0["y"])
         cur, endv = (a["n"], b["n"]) if c0["op"] == "<" else (b["n"], a["n"])
+    # extent of the scan: from the first byte of the block to its last one: limit = http_hdr + hdr_size (linear normal form)
+    from props import c17
+    p0, p1 = fn.params[0]["n"], fn.params[1]["n"]
+    lim_defs = [x["y"] for _p, _r, x, _ps in fn.nodes() if x.get("k") == "bin" and x["op"] == "=" and core.is_ref(strip_casts(x["x"]), name=endv)
+                and fn.pos_dominates(_p, (head, 0))]
+    start_defs = [x["y"] for _p, _r, x, _ps in fn.nodes() if x.get("k") == "bin" and x["op"] == "=" and core.is_ref(strip_casts(x["x"]), name=cur)
+                  and fn.pos_dominates(_p, (head, 0)) and _p[0] not in body]
+    desc_e = "the scan runs over the whole block: from %s to %s + %s, cursor compared with '<'" % (p0, p0, p1)
+    lim = c17._lin(fn, lim_defs[-1]) if lim_defs else None
+    st = c17._lin(fn, start_defs[-1]) if start_defs else None
+    if lim is None or st is None:
+        rep.undecided("R-CLASS", fn, "scan-extent", desc_e, "limit or start of the scan not found as a linear expression")
+    elif {k_: v for k_, v in lim.items() if v} == {p0: 1, p1: 1} and {k_: v for k_, v in st.items() if v} == {p0: 1} and c0.get("op") in ("<", ">"):
+        rep.proved("R-CLASS", fn, "scan-extent", desc_e, "limit %s" % key(lim_defs[-1]))
+    else:
+        rep.violated("R-CLASS", fn, "scan-extent", desc_e, "the cursor starts at %s and stops at %s: %s" % (
+            key(start_defs[-1])[:40], key(lim_defs[-1])[:50],
+            "the last byte(s) of the block are never examined" if lim.get("", 0) < 0 else "the scan leaves the block"))
     P = 0x20000
     # the first block of the loop body = successor of the head inside the body
     first = [s for s in fn.blocks[head].succ if s in body][0]
